@@ -2,7 +2,7 @@
    everything encoded as lists of integers so that the OCaml driver and the in-Coq re-evaluation
    (Eval vm_compute in run [...]) need no per-family glue. *)
 From Coq Require Import ZArith NArith List.
-From Cqos Require Import Base RateConv Float64 Divider Sched Utils Join JoinSim.
+From Cqos Require Import Base RateConv Float64 Divider Sched Utils Join JoinSim Limit LimitSim.
 Import ListNotations.
 Open Scope Z_scope.
 
@@ -133,6 +133,30 @@ Definition run_join (args : list Z) : list Z :=
   | _ => [-99]
   end.
 
+(* ---- family 6: timed limit scenario
+   [Q; I; icap; close_after; fuel; n; delays..; 2m; (index pause)*m] -> [0; 0; finished; nputs; puts..; nouts; (t val)*; tclose] or [-code] *)
+Definition run_limit (args : list Z) : list Z :=
+  match args with
+  | q :: i :: icp :: closeafter :: fuel :: r =>
+      let '(ds, r1) := take_list r in
+      let '(cs, _) := take_list r1 in
+      match is_valid {| ivl := i; qty := q |} with
+      | Some e => [- err_code e]
+      | None =>
+          let c := {| quantity := q; linterval := i |} in
+          let s0 := {| lnow := 0; ld := linit 0; libuf := []; licap := Z.to_nat icp; liclosed := false; lprod := ds; lnext := 1;
+                       lprod_at := match ds with [] => closeafter | dl :: _ => dl end; lclose_after := closeafter; lprod_done := false;
+                       lobuf := []; locap := S (Z.to_nat icp); lcons_at := 0; lcons_n := 0; lcons_script := pairs cs; lcons_done := false;
+                       loutlog := []; lputlog := []; ltclose := -1 |} in
+          let '(s1, fin) := lsim_run c (Z.to_nat fuel) s0 in
+          let puts := rev (lputlog s1) in
+          let outs := rev (loutlog s1) in
+          [0; 0; bool_z fin; Z.of_nat (length puts)] ++ puts ++ [Z.of_nat (length outs)] ++
+          flat_map (fun o => [fst o; snd o]) outs ++ [ltclose s1]
+      end
+  | _ => [-99]
+  end.
+
 Definition run (args : list Z) : list Z :=
   match args with
   | 1 :: which :: rest => run_rate which rest
@@ -140,5 +164,6 @@ Definition run (args : list Z) : list Z :=
   | 3 :: rest => run_utils rest
   | 4 :: rest => run_new rest
   | 5 :: rest => run_join rest
+  | 6 :: rest => run_limit rest
   | _ => [-999]
   end.
